@@ -270,3 +270,58 @@ class JolietName(Base):
 
     def observe(self, c, a, out):
         return {'kind': out.kind, 'exc': out.exc}
+
+
+@contract
+class FindRRRecord(Base):
+    """C18/facade safety: looking a Rock Ridge name up in a directory returns the child carrying exactly that name, and for a name
+    that is not there raises PyCdlibInvalidInput - nothing else (the facades rely on it to tell 'missing' from 'broken'),
+    wherever the name would sort among the children"""
+    target = 'pycdlib.pycdlib.PyCdlib._find_rr_record'
+    n = 2
+    namelen = 2
+
+    def setup(self, c):
+        a = c.a
+        a.names = [c.bytes('child%d' % i, self.namelen) for i in range(self.n)]
+        for nm in a.names:
+            for x in V.items_of(nm):
+                c.assume(And(x >= 33, x < 127, x != 47))
+        # children sorted strictly by name (the list invariant of rr_children)
+        for i in range(self.n - 1):
+            c.assume(lex_lt(V.items_of(a.names[i]), V.items_of(a.names[i + 1])))
+        a.want = c.bytes('wanted', self.namelen)
+        for x in V.items_of(a.want):
+            c.assume(And(x >= 33, x < 127, x != 47))
+        a.kids = []
+        for nm in a.names:
+            rr = c.obj('pycdlib.rockridge.RockRidge', _initialized=True, _full_name=nm, dr_entries=c.obj('pycdlib.rockridge.RockRidgeEntries', cl_record=None, nm_records=[]),
+                       ce_entries=c.obj('pycdlib.rockridge.RockRidgeEntries', cl_record=None, nm_records=[]), cl_to_moved_dr=None)
+            a.kids.append(c.obj('pycdlib.dr.DirectoryRecord', initialized=True, rock_ridge=rr, isdir=False, rr_children=[]))
+        root = c.obj('pycdlib.dr.DirectoryRecord', initialized=True, rock_ridge=None, isdir=True, rr_children=list(a.kids))
+        pvd = c.obj('pycdlib.headervd.PrimaryOrSupplementaryVD', _initialized=True, root_dir_record=root)
+        a.self = c.obj('pycdlib.pycdlib.PyCdlib', _initialized=True, pvd=pvd)
+        a.path = V.mk_bytes([47] + V.items_of(a.want))
+        return Call([a.path], self_obj=a.self)
+
+    def present(self, a):
+        return Or(*[Eq(a.want, nm) for nm in a.names]) if a.names else False
+
+    def raises(self, c, a):
+        return {'PyCdlibInvalidInput': Not(self.present(a))}
+
+    covers = ('return', 'raise:PyCdlibInvalidInput')
+
+    def post(self, c, a, out):
+        return {'returns-the-child-with-that-name': Or(*[And(out.result is k, Eq(a.want, nm)) for k, nm in zip(a.kids, a.names)]) if a.kids else False}
+
+    def observe(self, c, a, out):
+        return {'kind': out.kind, 'exc': out.exc}
+
+
+def lex_lt(x, y):
+    """byte strings of equal length: x < y lexicographically"""
+    alts = []
+    for i in range(len(x)):
+        alts.append(And(*([Eq(x[j], y[j]) for j in range(i)] + [x[i] < y[i]])))
+    return Or(*alts) if alts else False
